@@ -521,6 +521,8 @@ pub fn node_options(i: usize, b: &GBounds) -> Vec<GNode> {
 			out.push(GNode { kind: GKind::Fixed(full.clone(), 2), logical: Some(Logical::Decimal { precision: 4, scale: 0 }) });
 			out.push(GNode { kind: GKind::Fixed(full.clone(), 12), logical: Some(Logical::Duration) });
 			out.push(GNode { kind: GKind::Enum(full.clone(), vec!["S".into()]), logical: Some(Logical::Unknown("x-custom".into())) });
+			// enum without symbols
+			out.push(GNode::plain(GKind::Enum(full.clone(), vec![])));
 			for k in 0..n {
 				out.push(GNode { kind: GKind::Record(full.clone(), vec![("f0".into(), k)]), logical: Some(Logical::Unknown("x-custom".into())) });
 			}
